@@ -437,6 +437,10 @@ func genReq(t *rapid.T, p reqPools) Req {
 		r.Proto = pick(t, "protov", []string{"1.0", "2"})
 	}
 	genHostTLS(t, &r)
+	if chance(t, "body", 7) {
+		// a message body is no CORS matter: a few bytes, a KiB, unknown length (chunked), or an explicit http.NoBody
+		r.Body = pick(t, "bodyshape", []int{2, 17, 1000, -1, -1, -2})
+	}
 	return r
 }
 
